@@ -6,7 +6,7 @@ d="$1"
 wt=$(mktemp -d /tmp/wt-verify-XXXXXX); rmdir "$wt"
 git -C /repo worktree add -q --detach "$wt" HEAD || exit 9
 demo=$(ls "$d"/demo.py "$d"/test_demo.py 2>/dev/null | head -1)
-run_demo() { if [[ "$demo" == *test_demo.py ]]; then (cd "$wt" && /venv/bin/python -m pytest -q -p no:cacheprovider "$demo" >/dev/null 2>&1); else (cd "$wt" && PYTHONPATH="$wt/src" /venv/bin/python "$demo" >/dev/null 2>&1); fi; }
+run_demo() { if [[ "$demo" == *test_demo.py ]]; then (cd "$wt" && REDUINO_SRC="$wt/src" REDUINO_ROOT="$wt" /venv/bin/python -m pytest -q -p no:cacheprovider "$demo" >/dev/null 2>&1); else (cd "$wt" && PYTHONPATH="$wt/src" REDUINO_SRC="$wt/src" REDUINO_ROOT="$wt" /venv/bin/python "$demo" >/dev/null 2>&1); fi; }
 run_demo; clean=$?
 git -C "$wt" apply "$d/patch.diff" || { echo "APPLY-FAILED"; git -C /repo worktree remove --force "$wt"; exit 8; }
 (cd "$wt" && /venv/bin/python -m pytest -q -p no:cacheprovider 2>&1 | tail -1)
